@@ -14,13 +14,16 @@ def gen_ops(rng, n, ctr, dbs=("t",)):
     for _ in range(n):
         ctr[0] += 1; v = ctr[0]
         db = rng.choice(list(dbs))
-        kind = rng.below(10)
+        kind = rng.below(12)
         key = rng.choice(["a", "b", "c"])
         if kind < 5: ops.append((db, f"set {key} " + rng.choice(VALUES).format(v=v)))
         elif kind < 7: ops.append((db, f"remove {key}"))
         elif kind < 8: ops.append((db, f"increment n {1 + rng.below(3)}"))
         elif kind < 9: ops.append((db, f"set-safe {key} {rng.below(3)} s{v}"))
-        else: ops.append((db, f"snapshot false"))
+        elif kind < 10: ops.append((db, f"snapshot false"))
+        # keys the administrator's commands write under the `$$` prefix (users, permission lists) are data of the database like any other
+        elif kind < 11: ops.append((db, f"create-user {rng.choice(['bob', 'eve'])} pw{v}"))
+        else: ops.append((db, f"set-permissions {rng.choice(['bob', 'all'])} " + rng.choice(["rw a*|r b*", "r *", "rwi n|r a"])))
     return ops
 
 def run_ops(net, rng, ops, sel):
@@ -86,6 +89,19 @@ def scenario(kind, n_before, n_away, n_during, new_db_away):
                 if s2.startswith("@1 ") and any(x.startswith("D role") for x in o2): last = [x for x in o2 if x.startswith("D ")]
             if last is None: continue
             pds, _ = netrunner.dataset(last)
+            # a FULL resynchronisation (since = 0) names every live key of every database the primary holds, the `$$` ones included; only the
+            # connection counter and the token (which travels with create-db) are left out
+            since0 = any(re.match(r"V replicate-since-to \S+ 0\b", x) for x in o)
+            if since0:
+                named = set()
+                for x in o:
+                    m = re.match(r"L \S+ replicate (\S+) (\S+)", x)
+                    if m: named.add((core.unesc(m.group(1)).decode(), core.unesc(m.group(2)).decode()))
+                for db in sorted(pds):
+                    if db == "$admin": continue
+                    for key in sorted(pds[db]):
+                        if pds[db][key][2] == "live" and key not in ("$connections", "$$token") and (db, key) not in named:
+                            burst_fails.append(Failure("full-sync-burst-misses-key", f"the full resynchronisation burst has no line for {db}/{key} (primary holds {pds[db][key]}); history {hist}"))
             for x in o:
                 m = re.match(r"L \S+ replicate (\S+) (\S+) (.*)", x)
                 if not m: continue
@@ -96,7 +112,9 @@ def scenario(kind, n_before, n_away, n_during, new_db_away):
         net.op(1, "DUMP"); net.op(2, "DUMP")
         dumps = netrunner.dumps_of(net)
         prim, pattrs = netrunner.dataset(dumps[1]); ds, attrs = netrunner.dataset(dumps[2])
-        fails = burst_fails[:1]
+        fails = []
+        for bf in burst_fails:
+            if bf.cls not in [f.cls for f in fails]: fails.append(bf)
         for db in sorted(prim):
             if db == "$admin": continue
             if db not in ds: fails.append(Failure("database-missing-after-resync", f"{db}; history {hist}")); continue
